@@ -16,17 +16,17 @@ LEVEL_TEXT = ("Theorems in coq/Props/C19.v about the executable model coq/Bind/B
               "(what a well-formed value denotes always fits its type), also through codecs that canonicalise map entry order, instantiated with the concrete dag-cbor model (only premise: within the decoder limits); with the registry reused every call of every history of "
               "Wrap/Prototype/Marshal/Unmarshal equals the same call on the initial state and never hits the duplicate-name "
               "panic, which the pinned setting refutes. The model is tied to /repo by running the extracted model on the "
-              "records of a Go harness that binds 53 declared Go types (explicit and inferred schemas) and schema-inferred Go "
+              "records of a Go harness that binds 67 declared Go types (explicit and inferred schemas) and schema-inferred Go "
               "types, with histories executed in child processes.")
 LEVEL_NOTE = ("Trusted: Coq kernel, extraction, the Go harness (reflection-based renderer/parser/generator of Go values, typed "
               "dumper) and the OCaml driver. float32 conversion is a parameter of the model instantiated by OCaml's conversion. "
-              "Not modelled: custom converters, stringjoin/stringprefix/listpairs representations, recursive schemas, "
+              "Not modelled: custom converters, stringjoin/listpairs representations, stringprefix with a non-empty delimiter, recursive schemas, "
               "non-String map keys. dag-json has no Coq round-trip theorem to instantiate the order-canonicalising theorem with; it is covered by the correspondence run.")
 TRUSTED = ["float64->float32->float64 conversion: parameter narrow32 of the model (no hypothesis needed by the theorems); the driver supplies OCaml Int32.float_of_bits/bits_of_float",
            "Go field lookup by strings.Title(schema field name): the model matches struct fields by position; the harness types follow the naming convention",
            "dag-cbor / dag-json map key order is applied by the driver with sort_maps (codec correctness is C02-C04)",
            "C19_marshal_roundtrip_dagjson: premises A1, A2 (strconv / refmt emitFloat float text) and CID (cid.Decode inverts Cid.String()) are hypotheses of the statement (coq/Proofs/JsonMain.v), sampled on the real code by ./check C04"]
-RULE = ("53 declared Go types (incl. rename chains/swaps/cycles onto sibling field names, nullable/optional Bytes and lists behind pointers) x {explicit schema, inferred schema where inferSchema applies}; records = probes of the known "
+RULE = ("67 declared Go types (incl. keyed/kinded/stringprefix unions in every slot kind: map value by value/pointer/nullable, union member, list element, struct field plain/optional/nullable, map nested in a list; rename chains/swaps/cycles onto sibling field names, nullable/optional Bytes and lists behind pointers) x {explicit schema, inferred schema where inferSchema applies}; records = probes of the known "
         "findings, compatibility matrix (diagonal + random pairs), schema->Go type inference + build (type level, representation builder, dag-cbor decode), Wrap of random "
         "well-formed values (integer width extremes, nil/non-nil pointers, unions, enums, ordered maps), builds at type and "
         "representation level from fitting and damaged trees, dag-cbor/dag-json round trips, live-view records (one wrapped node read, the value behind the pointer replaced, the same node read again), and histories of 3-14 mixed "
